@@ -162,6 +162,18 @@ static std::string c12_scenario(int sc, coop::Sched& s, uint64_t seed, std::stri
         run_bodies(s, {[&] { d.reject(TestExc(11)); }, [&] { q.then(okCb, rejCb); }}, seed);
         return c12_judge(o, 0, 1, 0, 11);
     }
+    case 15: case 16: {  // S15/S16: the attaching thread has just made a settle attempt that was refused (a value of the wrong type raises in the caller and
+                         // leaves the promise pending - the API's own behaviour); then it attaches while the other thread settles for good
+        bool rej = sc == 16;
+        name = rej ? "S16-refused-resolve-then-then|reject" : "S15-refused-resolve-then-then|resolve";
+        std::unique_ptr<Async::Resolver> res1, res2; std::unique_ptr<Async::Rejection> rej1;   // (each thread has a handle of its own on the same promise)
+        Async::Promise<int> p([&](Async::Resolver& rs, Async::Rejection& rj) { res1.reset(new Async::Resolver(rs.clone())); res2.reset(new Async::Resolver(rs.clone())); rej1.reset(new Async::Rejection(rj.clone())); });
+        std::atomic<int> refused{0};
+        run_bodies(s, {[&] { if (rej) (*rej1)(TestExc(5)); else (*res1)(42); },
+                       [&] { try { (*res2)(std::string("not an int")); } catch (const std::exception&) { refused++; } p.then(okCb, rejCb); }}, seed);
+        if (!refused.load()) return "";   // (the other thread settled first: the wrong-typed attempt was simply ignored or refused differently - nothing to judge beyond the counts)
+        return rej ? c12_judge(o, 0, 1, 0, 5) : c12_judge(o, 1, 0, 42, -1);
+    }
     case 13: case 14: {  // S14 several continuations attached beforehand (a full list: 2 or 4), resolve || then(one more): the list grows while it is being walked
         static int flip = 0; int pre = sc == 14 ? 4 : g_opts.mode == "dfs" ? 2 : (flip++ % 2) ? 4 : 2;   // (systematic mode: scenario 14 is the 4-attached variant)
         name = "S14-resolve-with-" + std::to_string(pre) + "-attached|then";
@@ -191,7 +203,7 @@ static void run_c12(long cases) {
     if (g_coop && g_opts.mode == "dfs") {
         // systematic: every schedule of each scenario with at most pb preemptions, depth-first by replaying a prefix of choices
         int pb = (int)g_opts.num("preempt", 2);
-        for (int sc = g_opts.shard; sc < 15; sc += g_opts.nshards) {
+        for (int sc = g_opts.shard; sc < 17; sc += g_opts.nshards) {
             std::vector<int> prefix; long done = 0; bool exhausted = false; std::string name;
             for (;;) {
                 long i = 1000000L * (sc + 1) + done;
@@ -219,9 +231,9 @@ static void run_c12(long cases) {
     for (long i = g_opts.shard; i < cases * g_opts.nshards; i += g_opts.nshards) {
         if (i <= g_skip) continue;
         if (!g_coop && ((i / g_opts.nshards) % 64) == 0) emit(Json().str("t", "progress").num("i", i).num("stride", 64L * g_opts.nshards).done());
-        int sc = (int)(i % 14);
+        int sc = (int)(i % 16); if (sc >= 14) sc++;   // (14 is the systematic mode's 4-attached variant of S14)
         uint64_t seed = g_opts.seed * 1000003ull + (uint64_t)i;
-        int strat = (i / 14) % 3 == 0 ? 1 : 0;
+        int strat = (i / 16) % 3 == 0 ? 1 : 0;
         s.reset(sc == 4 || sc == 6 || sc == 9 || sc == 12 ? 3 : 2, seed, strat, 1 + (int)((i / 42) % 3), 40);
         std::string name;
         set_case(i, Json().num("i", i).str("phase", "c12").num("scenario", sc).num("seed", (long long)g_opts.seed).done());
